@@ -332,12 +332,16 @@ class Species(Substance):
                     raise ValueError("Could not determine phase_idx")
                 else:
                     p_i = default_phase_idx
+        # also strip the standard suffixes which are not among ``phases`` (e.g. 'Na+(aq)')
+        suffixes = tuple(phases) + tuple(
+            s for s in ("(s)", "(l)", "(g)", "(aq)") if s not in phases
+        )
         return cls(
             formula,
-            latex_name=formula_to_latex(formula, suffixes=phases),
-            unicode_name=formula_to_unicode(formula, suffixes=phases),
-            html_name=formula_to_html(formula, suffixes=phases),
-            composition=formula_to_composition(formula, suffixes=phases),
+            latex_name=formula_to_latex(formula, suffixes=suffixes),
+            unicode_name=formula_to_unicode(formula, suffixes=suffixes),
+            html_name=formula_to_html(formula, suffixes=suffixes),
+            composition=formula_to_composition(formula, suffixes=suffixes),
             phase_idx=p_i,
             **kwargs
         )
